@@ -19,10 +19,15 @@ class Run:
     """A real interpreter for an abstract chart plus the projection of its state."""
 
     def __init__(self, c, variant='api', pool='plain', seed=0, ignore_contract=False, metas=True,
-                 monitor=False, sc=None, names=None):
+                 monitor=False, sc=None, names=None, rename=None, reimport=False):
         self.c = c
         if sc is None:
             sc, names = realize.build(c, variant, pool, seed)
+        if rename is not None:
+            sc, names = realize.rename_some(sc, names, rename)
+        if reimport:
+            from sismic.io import import_from_yaml, export_to_yaml
+            sc = import_from_yaml(export_to_yaml(sc))
         self.sc, self.names = sc, names
         self.ids = {v: k for k, v in names.items()}
         self.probes = Probes()
@@ -165,6 +170,47 @@ def monitor_chart():
         sc.add_transition(Transition('w', None, event=name, action='mon.rec(event, time)'))
     sc.add_transition(Transition('w', 'f', guard='mon.fire()'))
     return sc
+
+
+def fork_run(r, mode):
+    """A Run around a pickled/deep-copied snapshot of r's interpreter (C18)."""
+    if mode == 'pickle':
+        it2 = pickle.loads(pickle.dumps(r.interp))
+    else:
+        it2 = copy.deepcopy(r.interp)
+    r2 = copy.copy(r)
+    r2.interp = it2
+    r2.sc = it2.statechart
+    r2.probes = it2.context['p'].__self__
+    ls = [l for l in it2._listeners if isinstance(l, Listener)]
+    r2.listener = ls[0] if ls else None
+    r2.listener2 = ls[1] if len(ls) > 1 else None
+    r2.mon = None
+    return r2
+
+
+def run_fork(c, hist, at, mode, **kw):
+    """Runs hist[:at], snapshots, then continues BOTH.  Returns (original lines, copy lines)."""
+    r = Run(c, **kw)
+    base = Run(c, **kw)          # never forked
+    orig, cp = [], []
+    r2 = None
+    for i, h in enumerate(hist):
+        if i == at:
+            r2 = fork_run(r, mode)
+        o = r.call(h)
+        ob = base.call(h)
+        if r2 is not None:
+            o['ref'] = ref_of('undisturbed', ob)
+            o2 = r2.call(h)
+            o2['ref'] = ref_of('fork', o)
+            cp.append(o2)
+        else:
+            cp.append(o)
+        orig.append(o)
+        if o['exc'] in FATAL or o['exc'] not in ('', 'NonDeterminismError', 'ConflictingTransitionsError'):
+            break
+    return orig, cp
 
 
 def run_history(c, hist, twin=None, **kw):
